@@ -128,7 +128,7 @@ theorem getPledge_creator (s : State) (c : Addr) (p : Pledge) (h : s.getPledge c
 
 theorem send_frame (s s' : State) (a b : Addr) (x : Int) (h : s.send a b x = .ok s') :
     s'.pledges = s.pledges ∧ s'.pool = s.pool ∧ s'.shards = s.shards ∧ s'.orders = s.orders ∧
-    s'.workers = s.workers ∧ s'.nodes = s.nodes ∧ s'.params = s.params := by
+    s'.workers = s.workers ∧ s'.nodes = s.nodes ∧ s'.params = s.params ∧ s'.debts = s.debts := by
   unfold State.send at h
   split at h
   · cases h
@@ -138,51 +138,62 @@ theorem send_frame (s s' : State) (a b : Addr) (x : Int) (h : s.send a b x = .ok
       subst h
       simp [State.setBal]
 
-/-- every accepted RemoveVstorage debits the pool and the provider's pledge by the same bytes and
-    coins: the network totals stay the sums over providers -/
-theorem C14_remove_keeps_pool_sum (e : Env) (s s' : State) (c : Addr) (size : Nat)
-    (hu : uniquePledges s) (hi : PoolSum s) (h : nodeRemoveVstorage e s c size = .ok s') : PoolSum s' := by
+theorem demoteIfDue_frame (e : Env) (s s' : State) (c : Addr) (p : Pledge) (h : demoteIfDue e s c p = .ok s') :
+    s'.pledges = s.pledges ∧ s'.bank = s.bank ∧ s'.debts = s.debts := by
+  unfold demoteIfDue at h
+  split at h
+  · split at h
+    · cases h
+    · split at h
+      · simp only [pure, Except.pure, Except.ok.injEq] at h
+        subst h; simp [State.setNode]
+      · simp only [pure, Except.pure, Except.ok.injEq] at h
+        subst h; exact ⟨rfl, rfl, rfl⟩
+  · simp only [pure, Except.pure, Except.ok.injEq] at h
+    subst h; exact ⟨rfl, rfl, rfl⟩
+
+/-- the shape of an accepted RemoveVstorage -/
+theorem remv_ok (e : Env) (s s' : State) (c : Addr) (size : Nat) (h : nodeRemoveVstorage e s c size = .ok s') :
+    ∃ pl s1 s2, remvPlan s c size = .ok pl ∧ s.send e.modNode c pl.amount = .ok s1 ∧
+      demoteIfDue e s1 c (remvPledge pl) = .ok s2 ∧
+      s' = { (s2.setPledge (remvPledge pl)) with
+             pool := some { pl.pool with totalPledged := pl.pool.totalPledged - pl.amount, totalStorage := pl.pool.totalStorage - pl.sz } } := by
   unfold nodeRemoveVstorage at h
-  simp only [bind, Except.bind] at h
   split at h
   · cases h
   · rename_i pl hpl
     split at h
     · cases h
     · rename_i s1 hs1
-      have hfr := send_frame _ _ _ _ _ hs1
-      have ⟨hpool, hpledge⟩ := remvPlan_ok _ _ _ _ hpl
       split at h
       · cases h
       · rename_i s2 hs2
-        have hs2p : s2.pledges = s.pledges := by
-          split at hs2
-          · split at hs2
-            · split at hs2
-              · simp only [pure, Except.pure, Except.ok.injEq] at hs2
-                subst hs2; simp [State.setNode, hfr.1]
-              · simp only [pure, Except.pure, Except.ok.injEq] at hs2
-                subst hs2; exact hfr.1
-            · cases hs2
-          · simp only [pure, Except.pure, Except.ok.injEq] at hs2
-            subst hs2; exact hfr.1
         simp only [pure, Except.pure, Except.ok.injEq] at h
-        subst h
-        obtain ⟨pool, hp, hts, htp⟩ := hi
-        rw [hpool] at hp
-        cases hp
-        have hcr := getPledge_creator _ _ _ hpledge
-        have htot := remvPledge_totals pl
-        have hu2 : uniquePledges s2 := by unfold uniquePledges; rw [hs2p]; exact hu
-        have hg2 : s2.getPledge (remvPledge pl).creator = some pl.pledge := by
-          unfold State.getPledge; rw [hs2p, htot.2.2.1, hcr]; exact hpledge
-        refine ⟨_, rfl, ?_, ?_⟩
-        · have := C14_set_pledge_sum (·.totalStorage) s2 (remvPledge pl) pl.pledge hu2 hg2
-          show pl.pool.totalStorage - pl.sz = sumInt ((s2.setPledge (remvPledge pl)).pledges.map (·.totalStorage))
-          rw [this, htot.1, hs2p, ← hts]; omega
-        · have := C14_set_pledge_sum (·.totalStoragePledged) s2 (remvPledge pl) pl.pledge hu2 hg2
-          show pl.pool.totalPledged - pl.amount = sumInt ((s2.setPledge (remvPledge pl)).pledges.map (·.totalStoragePledged))
-          rw [this, htot.2.1, hs2p, ← htp]; omega
+        exact ⟨pl, s1, s2, hpl, hs1, hs2, h.symm⟩
+
+/-- every accepted RemoveVstorage debits the pool and the provider's pledge by the same bytes and
+    coins: the network totals stay the sums over providers -/
+theorem C14_remove_keeps_pool_sum (e : Env) (s s' : State) (c : Addr) (size : Nat)
+    (hu : uniquePledges s) (hi : PoolSum s) (h : nodeRemoveVstorage e s c size = .ok s') : PoolSum s' := by
+  obtain ⟨pl, s1, s2, hpl, hs1, hs2, rfl⟩ := remv_ok e s s' c size h
+  have hfr := send_frame _ _ _ _ _ hs1
+  have ⟨hpool, hpledge⟩ := remvPlan_ok _ _ _ _ hpl
+  have hs2p : s2.pledges = s.pledges := by rw [(demoteIfDue_frame _ _ _ _ _ hs2).1, hfr.1]
+  obtain ⟨pool, hp, hts, htp⟩ := hi
+  rw [hpool] at hp
+  cases hp
+  have hcr := getPledge_creator _ _ _ hpledge
+  have htot := remvPledge_totals pl
+  have hu2 : uniquePledges s2 := by unfold uniquePledges; rw [hs2p]; exact hu
+  have hg2 : s2.getPledge (remvPledge pl).creator = some pl.pledge := by
+    unfold State.getPledge; rw [hs2p, htot.2.2.1, hcr]; exact hpledge
+  refine ⟨_, rfl, ?_, ?_⟩
+  · have := C14_set_pledge_sum (·.totalStorage) s2 (remvPledge pl) pl.pledge hu2 hg2
+    show pl.pool.totalStorage - pl.sz = sumInt ((s2.setPledge (remvPledge pl)).pledges.map (·.totalStorage))
+    rw [this, htot.1, hs2p, ← hts]; omega
+  · have := C14_set_pledge_sum (·.totalStoragePledged) s2 (remvPledge pl) pl.pledge hu2 hg2
+    show pl.pool.totalPledged - pl.amount = sumInt ((s2.setPledge (remvPledge pl)).pledges.map (·.totalStoragePledged))
+    rw [this, htot.2.1, hs2p, ← htp]; omega
 
 theorem poolSum_agrees (s : State) (h : PoolSum s) : poolAgrees s = true := by
   obtain ⟨pool, hp, h1, h2⟩ := h
@@ -222,5 +233,109 @@ example : let s : State := { (default : State) with
       pool := some { (default : Pool) with totalStorage := 100, totalPledged := 5 } }
     uniquePledges s ∧ PoolSum s := by
   refine ⟨by simp [uniquePledges], ⟨_, rfl, by simp [sumInt], by simp [sumInt]⟩⟩
+
+theorem addvPledge_totals (pool : Pool) (old : Option Pledge) (c : Addr) (amount sz : Int) :
+    (addvPledge pool old c amount sz).totalStorage = (old.map (·.totalStorage)).getD 0 + sz ∧
+    (addvPledge pool old c amount sz).totalStoragePledged = (old.map (·.totalStoragePledged)).getD 0 + amount ∧
+    (addvPledge pool old c amount sz).creator = (old.map (·.creator)).getD c ∧
+    (addvPledge pool old c amount sz).totalShardPledged = (old.map (·.totalShardPledged)).getD 0 ∧
+    (addvPledge pool old c amount sz).usedStorage = (old.map (·.usedStorage)).getD 0 := by
+  unfold addvPledge
+  cases old with
+  | none => simp [settle_totals]
+  | some p => simp [settle_totals]
+
+theorem sendLit_frame (s s' : State) (a b : Addr) (x : Int) (h : s.sendLit a b x = .ok s') :
+    s'.pledges = s.pledges ∧ s'.pool = s.pool ∧ s'.shards = s.shards ∧ s'.orders = s.orders ∧
+    s'.workers = s.workers ∧ s'.nodes = s.nodes ∧ s'.params = s.params ∧ s'.debts = s.debts := by
+  unfold State.sendLit at h
+  split at h
+  · cases h
+  · exact send_frame _ _ _ _ _ h
+
+theorem promoteIfDue_frame (e : Env) (s s' : State) (c : Addr) (p : Pledge) (h : promoteIfDue e s c p = .ok s') :
+    s'.pledges = s.pledges := by
+  unfold promoteIfDue at h
+  split at h
+  · split at h
+    · cases h
+    · split at h
+      · split at h
+        · cases h
+        · simp only [pure, Except.pure, Except.ok.injEq] at h
+          subst h; simp [State.setNode]
+        · simp only [pure, Except.pure, Except.ok.injEq] at h
+          subst h; rfl
+      · simp only [pure, Except.pure, Except.ok.injEq] at h
+        subst h; rfl
+  · simp only [pure, Except.pure, Except.ok.injEq] at h
+    subst h; rfl
+
+theorem any_false_of_find_none (l : List Pledge) (c : Addr) (h : l.find? (·.creator = c) = none) :
+    l.any (·.creator = c) = false := by
+  cases ha : l.any (·.creator = c) with
+  | false => rfl
+  | true =>
+    rcases List.any_eq_true.mp ha with ⟨x, hx, hxc⟩
+    have := List.find?_eq_none.mp h x hx
+    simp_all
+
+/-- every accepted AddVstorage credits the pool and the provider's pledge with the same bytes and
+    coins (whether or not the provider had a pledge record): the totals stay the sums over providers -/
+theorem C14_add_keeps_pool_sum (e : Env) (s s' : State) (c : Addr) (size : Nat)
+    (hu : uniquePledges s) (hi : PoolSum s) (h : nodeAddVstorage e s c size = .ok s') : PoolSum s' := by
+  unfold nodeAddVstorage at h
+  split at h
+  · cases h
+  · split at h
+    · cases h
+    · rename_i pool hpool
+      simp only at h
+      split at h
+      · cases h
+      · split at h
+        · cases h
+        · rename_i s1 hs1
+          have hfr := sendLit_frame _ _ _ _ _ hs1
+          split at h
+          · cases h
+          · rename_i s2 hs2
+            have hs2p : s2.pledges = s.pledges := by rw [promoteIfDue_frame _ _ _ _ _ hs2, hfr.1]
+            simp only [pure, Except.pure, Except.ok.injEq] at h
+            subst h
+            obtain ⟨pool0, hp, hts, htp⟩ := hi
+            rw [hpool] at hp
+            cases hp
+            have hg1 : s1.getPledge c = s.getPledge c := by unfold State.getPledge; rw [hfr.1]
+            rw [hg1]
+            have hu2 : uniquePledges s2 := by unfold uniquePledges; rw [hs2p]; exact hu
+            cases hold : s.getPledge c with
+            | none =>
+              have htot := addvPledge_totals pool none c (addAmount size) (addSize (addAmount size))
+              simp only [Option.map_none, Option.getD_none] at htot
+              have hany : s2.pledges.any (·.creator = (addvPledge pool none c (addAmount size) (addSize (addAmount size))).creator) = false := by
+                rw [htot.2.2.1, hs2p]; exact any_false_of_find_none _ _ hold
+              refine ⟨_, rfl, ?_, ?_⟩
+              · show pool.totalStorage + addSize (addAmount size) = sumInt ((s2.setPledge _).pledges.map (·.totalStorage))
+                unfold State.setPledge
+                simp only [hany]
+                rw [if_neg (by simp), sum_append_new, hs2p, ← hts, htot.1]; omega
+              · show pool.totalPledged + addAmount size = sumInt ((s2.setPledge _).pledges.map (·.totalStoragePledged))
+                unfold State.setPledge
+                simp only [hany]
+                rw [if_neg (by simp), sum_append_new, hs2p, ← htp, htot.2.1]; omega
+            | some old =>
+              have htot := addvPledge_totals pool (some old) c (addAmount size) (addSize (addAmount size))
+              simp only [Option.map_some, Option.getD_some] at htot
+              have hcr := getPledge_creator _ _ _ hold
+              have hg2 : s2.getPledge (addvPledge pool (some old) c (addAmount size) (addSize (addAmount size))).creator = some old := by
+                unfold State.getPledge; rw [hs2p, htot.2.2.1, hcr]; exact hold
+              refine ⟨_, rfl, ?_, ?_⟩
+              · have := C14_set_pledge_sum (·.totalStorage) s2 _ old hu2 hg2
+                show pool.totalStorage + addSize (addAmount size) = sumInt ((s2.setPledge _).pledges.map (·.totalStorage))
+                rw [this, htot.1, hs2p, ← hts]; omega
+              · have := C14_set_pledge_sum (·.totalStoragePledged) s2 _ old hu2 hg2
+                show pool.totalPledged + addAmount size = sumInt ((s2.setPledge _).pledges.map (·.totalStoragePledged))
+                rw [this, htot.2.1, hs2p, ← htp]; omega
 
 end SaoVerif
